@@ -448,6 +448,31 @@ func (p *sPrinter) print(n *sNode, indent int, key, comma string, optional bool)
 			p.print(it, indent+1, "", c, false)
 		}
 		w(pad + "]" + comma + "\n")
+	case "tref": // a literal example annotated with a reference to a scalar user type / a list of them
+		if n == p.badExample {
+			w(p.g.trefViolating(n))
+		} else {
+			w(p.g.example(p.g.types[n.names[p.g.r.Intn(len(n.names))]]))
+		}
+		p.valueEnd[n] = p.sb.Len()
+		w(comma)
+		var rs []string
+		if len(n.names) == 1 {
+			rs = append(rs, "type: "+strconv.Quote(n.names[0]))
+		} else {
+			var q []string
+			for _, nm := range n.names {
+				q = append(q, strconv.Quote(nm))
+			}
+			rs = append(rs, "or: ["+strings.Join(q, ", ")+"]")
+		}
+		if optional {
+			rs = append(rs, "optional: true")
+		}
+		if n.nullable {
+			rs = append(rs, "nullable: true")
+		}
+		w(" // {" + strings.Join(rs, ", ") + "}\n")
 	case "ref", "or":
 		w(strings.Join(n.names, " | "))
 		p.valueEnd[n] = p.sb.Len()
@@ -469,6 +494,18 @@ func (p *sPrinter) print(n *sNode, indent int, key, comma string, optional bool)
 
 // text of the schema without the final line break
 func (p *sPrinter) text() string { return strings.TrimSuffix(p.sb.String(), "\n") }
+
+// trefViolating: an example that breaks a rule of one referenced type and has the wrong kind for the others
+// (the referenced types of one tref node have pairwise different kinds).
+func (g *vgen) trefViolating(n *sNode) string {
+	perm := g.r.Perm(len(n.names))
+	for _, i := range perm {
+		if v := g.violating(g.types[n.names[i]]); v != "" {
+			return v
+		}
+	}
+	return ""
+}
 
 // violating: an example of the node's kind that breaks one of the node's own rules ("" if it has none).
 func (g *vgen) violating(n *sNode) string {
